@@ -7,14 +7,14 @@
    witnesses replayed on the real server. *)
 From Verif Require Import Bytes Codec AwsChunked AwsChunkedSpec AwsChunkedProofs.
 
-Definition cfgU : cfg := {| has_trailer := false; trailer_signed := false; skip_val := true; tname := [];
+Definition cfgU : cfg := {| has_trailer := false; trailer_signed := false; skip_val := true; is_v4a := false; tname := [];
                             exp_sigs := []; exp_tsig := []; exp_ck := [] |}.
 (* STREAMING-UNSIGNED-PAYLOAD-TRAILER with x-amz-checksum-crc32; [ck] = the checksum that matches the carried data *)
 Definition cfgUT (ck : bytes) : cfg :=
-  {| has_trailer := true; trailer_signed := false; skip_val := true; tname := B"x-amz-checksum-crc32";
+  {| has_trailer := true; trailer_signed := false; skip_val := true; is_v4a := false; tname := B"x-amz-checksum-crc32";
      exp_sigs := []; exp_tsig := []; exp_ck := ck |}.
 (* STREAMING-AWS4-HMAC-SHA256-PAYLOAD; "{i}" is the (opaque) signature verifying at call i *)
-Definition cfgS : cfg := {| has_trailer := false; trailer_signed := false; skip_val := false; tname := [];
+Definition cfgS : cfg := {| has_trailer := false; trailer_signed := false; skip_val := false; is_v4a := false; tname := [];
                             exp_sigs := [B"{0}"; B"{1}"; B"{2}"]; exp_tsig := []; exp_ck := [] |}.
 
 (* claim 1: the stored object does not depend on whether authentication is enabled *)
@@ -103,7 +103,7 @@ Definition C30_wrong_checksum_rejected_full : Prop :=
 Theorem C30_declared_checksum_unverified : ~ C30_wrong_checksum_rejected_full.
 Proof.
   intros H.
-  specialize (H {| has_trailer := true; trailer_signed := false; skip_val := true;
+  specialize (H {| has_trailer := true; trailer_signed := false; skip_val := true; is_v4a := false;
                    tname := B"x-amz-meta-note,x-amz-checksum-crc32"; exp_sigs := []; exp_tsig := []; exp_ck := B"NhCmhg==" |}
                 [] B"x-amz-checksum-crc32" B"AAAAAA==" eq_refl eq_refl eq_refl (Forall_nil _) eq_refl).
   assert (E : Stored [] = Reject).
@@ -124,12 +124,12 @@ Print Assumptions C30_declared_checksum_unverified.
 Theorem C30_decode_encode : forall c chs hs0 sgf tr name value ts,
   Forall wf_chunk chs -> hexstr hs0 = true -> hexv hs0 = 0%N -> tok_ok sgf = true ->
   (skip_val c = true \/
-   forall i sg, nth_error (map c_sig chs ++ [sgf]) i = Some sg -> nth_error (exp_sigs c) i = Some sg) ->
+   forall i sg, nth_error (map c_sig chs ++ [sgf]) i = Some sg -> nth_error (exp_sigs c) i = Some (norm_sig c sg)) ->
   (has_trailer c = false \/
    ((tr = canonical_trailer (trailer_signed c) name value ts /\
      mem_bytes (tname c) known_algos = true /\ plain name = true /\ name <> [] /\ ~ In ":"%byte name /\
      to_lower name = tname c /\ plain value = true /\ plain ts = true) /\
-    value = exp_ck c /\ (trailer_signed c = true -> ts = exp_tsig c))) ->
+    value = exp_ck c /\ (trailer_signed c = true -> norm_sig c ts = exp_tsig c))) ->
   decode c (enc (negb (skip_val c)) chs hs0 sgf tr) = Stored (concat (map c_data chs)).
 Proof. exact decode_encode_canonical. Qed.
 Print Assumptions C30_decode_encode.
@@ -139,9 +139,9 @@ Print Assumptions C30_decode_encode.
    for the bytes actually framed) — is rejected as soon as it is completely present, whatever follows *)
 Theorem C30_tamper_rejected_chunk : forall c chs hs sg Y,
   skip_val c = false -> Forall wf_chunk chs ->
-  (skip_val c = true \/ forall i s, nth_error (map c_sig chs) i = Some s -> nth_error (exp_sigs c) i = Some s) ->
+  (skip_val c = true \/ forall i s, nth_error (map c_sig chs) i = Some s -> nth_error (exp_sigs c) i = Some (norm_sig c s)) ->
   hexstr hs = true -> (0 < hexv hs < 18446744073709551616)%N -> tok_ok sg = true ->
-  nth_error (exp_sigs c) (length chs) <> Some sg -> (hexv hs + 2 <= lenN Y)%N ->
+  nth_error (exp_sigs c) (length chs) <> Some (norm_sig c sg) -> (hexv hs + 2 <= lenN Y)%N ->
   decode c (enc_chunks true chs ++ hs ++ sig_ext ++ sg ++ CRLF ++ Y) = Reject.
 Proof. exact tamper_chunk_canonical. Qed.
 Print Assumptions C30_tamper_rejected_chunk.
@@ -150,9 +150,9 @@ Print Assumptions C30_tamper_rejected_chunk.
    boundary, modified final signature) is rejected, whatever the trailer section *)
 Theorem C30_tamper_rejected_final_signature : forall c chs hs0 sgf tr,
   skip_val c = false -> Forall wf_chunk chs ->
-  (skip_val c = true \/ forall i s, nth_error (map c_sig chs) i = Some s -> nth_error (exp_sigs c) i = Some s) ->
+  (skip_val c = true \/ forall i s, nth_error (map c_sig chs) i = Some s -> nth_error (exp_sigs c) i = Some (norm_sig c s)) ->
   hexstr hs0 = true -> hexv hs0 = 0%N -> tok_ok sgf = true ->
-  nth_error (exp_sigs c) (length chs) <> Some sgf ->
+  nth_error (exp_sigs c) (length chs) <> Some (norm_sig c sgf) ->
   decode c (enc true chs hs0 sgf tr) = Reject.
 Proof. exact tamper_final_sig_canonical. Qed.
 Print Assumptions C30_tamper_rejected_final_signature.
@@ -163,16 +163,94 @@ Print Assumptions C30_tamper_rejected_final_signature.
 Theorem C30_tamper_rejected_trailer : forall c chs hs0 sgf name value ts,
   has_trailer c = true ->
   Forall wf_chunk chs -> hexstr hs0 = true -> hexv hs0 = 0%N -> tok_ok sgf = true ->
-  (skip_val c = true \/ forall i s, nth_error (map c_sig chs) i = Some s -> nth_error (exp_sigs c) i = Some s) ->
+  (skip_val c = true \/ forall i s, nth_error (map c_sig chs) i = Some s -> nth_error (exp_sigs c) i = Some (norm_sig c s)) ->
   (mem_bytes (tname c) known_algos = true /\ plain name = true /\ name <> [] /\ ~ In ":"%byte name /\
    to_lower name = tname c /\ plain value = true /\ plain ts = true) ->
-  value <> exp_ck c \/ (trailer_signed c = true /\ ts <> exp_tsig c) ->
+  value <> exp_ck c \/ (trailer_signed c = true /\ norm_sig c ts <> exp_tsig c) ->
   decode c (enc (negb (skip_val c)) chs hs0 sgf (canonical_trailer (trailer_signed c) name value ts)) = Reject.
 Proof.
   intros c chs hs0 sgf name value ts Hht Hwf Hhs Hz Htok Hs Hform Hbad.
   apply tamper_trailer_canonical; try assumption. split; [reflexivity|exact Hform].
 Qed.
 Print Assumptions C30_tamper_rejected_trailer.
+
+(* ---------------------------------------------------------------------------------------------
+   part 3: the mode table of checkAuthentication (x-amz-content-sha256 -> framing flags), for both request
+   signature algorithms.  [norm_sig] in the theorems above is the SigV4a '*'-padding normalisation, so they are
+   already statements about the ECDSA modes too ([is_v4a c = true]); signature verification (HMAC or ECDSA) is the
+   opaque-token oracle [exp_sigs]/[exp_tsig] — unforgeability is the premise "a token that was not issued for
+   these bytes does not verify", see trusted_base. *)
+
+(* every STREAMING-* constant the server accepts for an algorithm gets flags under which each payload byte is
+   covered by a verified chunk signature (skip = false) or by a trailer checksum (trailer = true) — with the single,
+   explicit exception of STREAMING-UNSIGNED-PAYLOAD (no trailer), which carries no integrity information at all;
+   the trailer signature is demanded exactly in the signed trailer modes; the HMAC constants are refused on
+   SigV4a requests and the ECDSA constants on SigV4 requests *)
+Theorem C30_mode_table_covered : forall v4a sha,
+  In sha streaming_constants ->
+  match mode_flags v4a sha with
+  | None => (v4a = true /\ (sha = sha_S \/ sha = sha_ST)) \/ (v4a = false /\ (sha = sha_ES \/ sha = sha_EST))
+  | Some (trailer, trailer_sig, skip) =>
+      (skip = false \/ trailer = true \/ sha = sha_U) /\
+      trailer_sig = (trailer && negb skip) /\
+      (skip = true <-> (sha = sha_U \/ sha = sha_UT)) /\
+      (trailer = true <-> (sha = sha_UT \/ sha = sha_ST \/ sha = sha_EST))
+  end.
+Proof.
+  intros v4a sha Hin. destruct v4a; cbn in Hin;
+    repeat (destruct Hin as [<-|Hin]; [vm_compute; repeat split; intros; try discriminate; intuition discriminate|]);
+    destruct Hin.
+Qed.
+Print Assumptions C30_mode_table_covered.
+
+(* the table is total: whatever else is sent as x-amz-content-sha256 together with Content-Encoding: aws-chunked is
+   decoded as signed chunks without trailer (never as an unsigned mode) *)
+Theorem C30_mode_table_default_signed : forall v4a sha,
+  ~ In sha streaming_constants -> mode_flags v4a sha = Some (false, false, false).
+Proof.
+  intros v4a sha Hn. unfold mode_flags, accepts_streaming.
+  assert (H : forall k, In k streaming_constants -> bytes_eqb sha k = false).
+  { intros k Hk. apply bytes_eqb_neq. intros ->. contradiction. }
+  rewrite (H sha_U), (H sha_UT), (H sha_S), (H sha_ST), (H sha_ES), (H sha_EST) by (cbn; tauto).
+  destruct v4a; reflexivity.
+Qed.
+Print Assumptions C30_mode_table_default_signed.
+
+(* signed modes: a chunk header WITHOUT the chunk-signature extension — in particular a stream cut at a chunk boundary and
+   closed with the bare terminator "0 CRLF CRLF" — is rejected after any honest prefix, whatever follows (padding etc.) *)
+Theorem C30_unsigned_terminator_rejected : forall c chs hs Y,
+  skip_val c = false -> Forall wf_chunk chs ->
+  (skip_val c = true \/ forall i s, nth_error (map c_sig chs) i = Some s -> nth_error (exp_sigs c) i = Some (norm_sig c s)) ->
+  hexstr hs = true ->
+  decode c (enc_chunks true chs ++ hs ++ CRLF ++ Y) = Reject.
+Proof. exact unsigned_terminator_stmt. Qed.
+Print Assumptions C30_unsigned_terminator_rejected.
+
+(* trailer modes with a supported declared checksum: a complete upload is accepted ONLY IF the value of the checksum line
+   the reader picks is byte-identical (after trimming surrounding white space) to [exp_ck c] — the canonical base64 text of
+   the checksum of the decoded payload; any other spelling of the same bytes (unused bits, padding, alphabet, inner white
+   space, folding) is a different byte string and is refused, for ANY trailer section [tr] *)
+Theorem C30_accepted_only_canonical_checksum : forall c chs hs0 sgf tr p,
+  has_trailer c = true -> mem_bytes (tname c) known_algos = true ->
+  Forall wf_chunk chs ->
+  (skip_val c = true \/ forall i s, nth_error (map c_sig chs) i = Some s -> nth_error (exp_sigs c) i = Some (norm_sig c s)) ->
+  hexstr hs0 = true -> hexv hs0 = 0%N -> tok_ok sgf = true ->
+  decode c (enc (negb (skip_val c)) chs hs0 sgf tr) = Stored p ->
+  exists name value, split_first ":"%byte (fst (trailer_lines 8 true tr [] [])) = Some (name, value) /\
+                     to_lower (trim_space name) = tname c /\ trim_space value = exp_ck c.
+Proof. exact accepted_only_canonical_stmt. Qed.
+Print Assumptions C30_accepted_only_canonical_checksum.
+
+(* ECDSA instance on a witness: '*'-padded signatures verify, an empty or foreign one does not *)
+Definition cfgES : cfg := {| has_trailer := false; trailer_signed := false; skip_val := false; is_v4a := true; tname := [];
+                             exp_sigs := [B"{0}"; B"{1}"]; exp_tsig := []; exp_ck := [] |}.
+Example C30_ex_ecdsa :
+  mode_flags true sha_ES = Some (false, false, false) /\ mode_flags true sha_EST = Some (true, true, false) /\
+  mode_flags false sha_ES = None /\
+  decode cfgES (B"3;chunk-signature={0}***" ++ CRLF ++ B"abc" ++ CRLF ++ B"0;chunk-signature={1}*" ++ CRLF ++ CRLF) = Stored B"abc" /\
+  decode cfgES (B"3;chunk-signature=" ++ CRLF ++ B"abc" ++ CRLF ++ B"0;chunk-signature={1}" ++ CRLF ++ CRLF) = Reject /\
+  decode cfgES (B"3;chunk-signature={0}" ++ CRLF ++ B"abc" ++ CRLF ++ B"0;chunk-signature={0}" ++ CRLF ++ CRLF) = Reject.
+Proof. vm_compute. repeat split. Qed.
 
 (* non-vacuity: the hypotheses are satisfiable by the concrete uploads used above *)
 Example C30_ex_wf : wf_chunk {| c_hs := B"0A"; c_sig := B"{0}"; c_data := B"0123456789" |}.
